@@ -6,6 +6,7 @@
 //!   vcheck parse <file>                   parse a file and dump the library (debug aid)
 
 mod astwalk;
+mod drive;
 mod gates;
 mod gen_syntax;
 mod gen_valid;
